@@ -30,13 +30,17 @@ type DeadlockCase struct {
 	Dups     int    `json:"dups"`
 	LingerUs int    `json:"lingerUs"`
 	ShakeUs  int    `json:"shakeUs"`
+	// RPCTimeoutMs (backpressured-peer-not-closed only): the stuck Close comes
+	// back once the handlers' stream deadline expires; the default of 5 minutes
+	// is shortened so that the process can clean up after the finding.
+	RPCTimeoutMs int `json:"rpcTimeoutMs,omitempty"`
 }
 
 func deadlockCases(r *mon.Run) []DeadlockCase {
 	cs := []DeadlockCase{
 		{Phase: "deadlock", Kind: "duplicate-netaddress", Index: 0, Dups: 2},
 		{Phase: "deadlock", Kind: "late-inbound-peer", Index: 1, LingerUs: 150000, ShakeUs: 10000},
-		{Phase: "deadlock", Kind: "backpressured-peer-not-closed", Index: 4, LingerUs: 20000},
+		{Phase: "deadlock", Kind: "backpressured-peer-not-closed", Index: 4, LingerUs: 20000, RPCTimeoutMs: 40000},
 	}
 	if r.Thorough() {
 		rng := r.RNG(0xD000)
@@ -76,7 +80,7 @@ func runDeadlockCase(r *mon.Run, c DeadlockCase) (join func()) {
 	}
 	if c.Kind == "backpressured-peer-not-closed" {
 		cfg.LingerRun = func() time.Duration { return us(c.LingerUs) }
-		cfg.Opts = append(cfg.Opts, syncer.WithMaxInflightRPCs(1), syncer.WithMaxInflightRPCsPerSubnet(0))
+		cfg.Opts = append(cfg.Opts, syncer.WithMaxInflightRPCs(1), syncer.WithMaxInflightRPCsPerSubnet(0), syncer.WithRPCTimeout(time.Duration(c.RPCTimeoutMs)*time.Millisecond))
 	}
 	node, err := w.NewNode(cfg)
 	if err != nil {
@@ -86,12 +90,17 @@ func runDeadlockCase(r *mon.Run, c DeadlockCase) (join func()) {
 	node.Start()
 	var mu sync.Mutex
 	var atts []*limitlab.Attacker
+	releaseHalfOpen := func() {}
+	var hangOnce sync.Once
 	hangUp := func() {
-		mu.Lock()
-		defer mu.Unlock()
-		for _, a := range atts {
-			a.Close()
-		}
+		hangOnce.Do(func() {
+			releaseHalfOpen()
+			mu.Lock()
+			defer mu.Unlock()
+			for _, a := range atts {
+				a.Close()
+			}
+		})
 	}
 	detail := map[string]any{}
 	var late sync.WaitGroup
@@ -158,16 +167,18 @@ func runDeadlockCase(r *mon.Run, c DeadlockCase) (join func()) {
 			closeNode(r, "deadlock", node, c)
 			return nop
 		}
-		// two streams that carry only their RPC id: the first occupies the
+		// three streams that carry only their RPC id: the first occupies the
 		// single slot (its handler waits for the request body), the second is
-		// accepted and waits for the slot
+		// accepted and waits for the slot, the third cannot be accepted and
+		// keeps the multiplexer's read loop waiting (so that closing the
+		// socket alone goes unnoticed)
 		release := make(chan struct{})
 		late.Add(1)
 		go func() {
 			defer late.Done()
-			a.Burst(1, []limitlab.ReqPlan{{Kind: 0, HalfOpen: true}, {Kind: 1, HalfOpen: true}}, 10*time.Minute, release)
+			a.Burst(1, []limitlab.ReqPlan{{Kind: 0, HalfOpen: true}, {Kind: 1, HalfOpen: true}, {Kind: 2, HalfOpen: true}}, 10*time.Minute, release)
 		}()
-		defer close(release)
+		releaseHalfOpen = func() { close(release) }
 		deadline := time.Now().Add(settleBound)
 		for limitlab.BackpressuredPeerLoops() == 0 {
 			if time.Now().After(deadline) {
@@ -178,7 +189,8 @@ func runDeadlockCase(r *mon.Run, c DeadlockCase) (join func()) {
 			}
 			time.Sleep(time.Millisecond)
 		}
-		detail["state"] = "one handler waits for its request body, the peer loop waits for a free slot"
+		time.Sleep(30 * time.Millisecond) // let the third id frame arrive
+		detail["state"] = "one handler waits for its request body, the peer loop waits for a free slot, a third stream waits to be accepted"
 		r.Distinct("deadlock/backpressured-peer-not-closed")
 	default:
 		r.Inconclusive("deadlock: unknown kind " + c.Kind)
@@ -187,8 +199,11 @@ func runDeadlockCase(r *mon.Run, c DeadlockCase) (join func()) {
 
 	p := bounded(func() { node.S.Close() })
 	return func() {
+		defer late.Wait()
 		defer hangUp()
-		late.Wait()
+		if c.Kind == "late-inbound-peer" {
+			late.Wait()
+		}
 		if p.waitSinceStart(livenessBound) {
 			countLatency(r, "deadlock", p.latency())
 			r.Count("deadlock.close_returned_in_time", 1)
@@ -210,6 +225,17 @@ func runDeadlockCase(r *mon.Run, c DeadlockCase) (join func()) {
 		r.Violation(sig, what, c, detail)
 		// every remote end hangs up; the stuck Close must then come back
 		hangUp()
+		if c.Kind == "backpressured-peer-not-closed" {
+			// hanging up goes unnoticed (the multiplexer is not reading); the
+			// handlers give up when their stream deadline expires
+			if p.waitSinceStart(time.Duration(c.RPCTimeoutMs)*time.Millisecond + livenessBound) {
+				r.Count("deadlock.close_returned_after_rpc_timeout", 1)
+				node.WaitRun(livenessBound)
+			} else {
+				r.Inconclusive("deadlock: Close still stuck after the RPC timeout")
+			}
+			return
+		}
 		if p.wait(livenessBound) {
 			r.Count("deadlock.close_returned_after_peers_hung_up", 1)
 			node.WaitRun(livenessBound)
